@@ -14,7 +14,7 @@ import traceback
 from pathlib import Path
 
 VERIF = Path(__file__).resolve().parent.parent
-EVIDENCE_DIR = VERIF / "evidence"
+EVIDENCE_DIR = Path(os.environ.get("VERIF_EVIDENCE_DIR") or VERIF / "evidence")  # selftests redirect
 REPLAY_DIR = EVIDENCE_DIR / "replay"
 KNOWN_FILE = VERIF / "known_findings.json"
 
